@@ -222,6 +222,22 @@ theorem C09_missing_library (exists_ : Str → Bool) (lib : Str → List Item) (
     (l : Str) (p : Option Str) (rest : List (Str × Option Str)) (h : exists_ l = false) :
     (runAll exists_ lib fails ((l, p) :: rest)).2 = true := by simp [runAll, h]
 
+/-- The runner's exit status over several libraries, when all exist: failure exactly when some library's own run
+reports failure — an earlier library's failure is never forgotten, whatever the later ones do. -/
+theorem C09_all_libraries (exists_ : Str → Bool) (lib : Str → List Item) (fails : Item → Bool) :
+    ∀ (args : List (Str × Option Str)), (∀ a ∈ args, exists_ a.1 = true) →
+    (runAll exists_ lib fails args).2 = args.any (fun a => (runLibrary (lib a.1) a.2 fails).failure)
+    ∧ (runAll exists_ lib fails args).1 = args.flatMap (fun a => (runLibrary (lib a.1) a.2 fails).executed) := by
+  intro args
+  induction args with
+  | nil => intro _; simp [runAll]
+  | cons a rest ih =>
+    intro h
+    obtain ⟨l, p⟩ := a
+    have hl : exists_ l = true := h (l, p) List.mem_cons_self
+    obtain ⟨i1, i2⟩ := ih (fun x hx => h x (List.mem_cons_of_mem _ hx))
+    simp [runAll, hl, i1, i2]
+
 /-- Witness of finding F20: with the pinned commit's single-match path a wildcard pattern that matches
 exactly one test executed nothing and did not report failure. -/
 theorem C09_F20_witness :
